@@ -50,13 +50,21 @@ type Ctx struct {
 	labels     []string
 	aborted    bool
 	dry        bool
+	fixed      func(n int, free bool) int
 }
+
+// NewFixedCtx returns a context outside any exploration whose choices are answered by f: a harness uses it to build
+// an auxiliary value (e.g. "the same declaration with every flag set") without touching the explored choice vector.
+func NewFixedCtx(f func(n int, free bool) int) *Ctx { return &Ctx{fixed: f} }
 
 type diverged struct{ msg string }
 
 func (c *Ctx) next(n int, free bool) int {
 	if n <= 0 {
 		panic(diverged{fmt.Sprintf("Choose(%d) with no alternatives", n)})
+	}
+	if c.fixed != nil {
+		return c.fixed(n, free)
 	}
 	ch := 0
 	i := len(c.trace)
